@@ -21,7 +21,7 @@ RULE = ("(1) exhaustive: every data string of length <=L over {a,A,b,1,space,-} 
         "keyword set) pairs with at least one expected hit.")
 ASSUMPTIONS = ["case folding is ASCII-only in both the reference and bytes.lower()"]
 EXPECTED_WALL = {"quick": 30, "thorough": 300}
-REQUIRED = {"exhaustive_pairs": 1000000, "random_sets": 2000, "registry_dirs": 20, "expected_hits": 100000, "mixedcase_expected": 1000}
+REQUIRED = {"exhaustive_pairs": 1000000, "random_sets": 250, "registry_dirs": 5, "expected_hits": 12500, "mixedcase_expected": 125}
 
 
 def plan(tier, seed):
